@@ -121,30 +121,42 @@ func (h *Handler) delete(lease *Lease) {
 	delete(h.table, string(lease.ClientID))
 }
 
+// ipAvailable returns true if ip can be offered to the lease: it must be a host address of the lease subnet,
+// not our own or the router address, not allocated to another client and not in use on the LAN.
+func (h *Handler) ipAvailable(lease *Lease, ip netip.Addr) bool {
+	if !ip.Is4() || !lease.subnet.LAN.Contains(ip) || ip == lease.subnet.LAN.Addr() || ip == lease.subnet.broadcast ||
+		ip == h.session.NICInfo.HostAddr4.IP || ip == h.session.NICInfo.RouterAddr4.IP {
+		return false
+	}
+	for _, l := range h.table {
+		if l == lease || bytes.Equal(l.ClientID, lease.ClientID) {
+			continue
+		}
+		if l.State != StateFree && l.Addr.IP == ip {
+			return false
+		}
+	}
+	return h.session.FindIP(ip) == nil
+}
+
 // allocIPOffer allocates a free IP to the lease entry
 func (h *Handler) allocIPOffer(lease *Lease, reqIP netip.Addr) error {
-	if reqIP.Is4() {
-		if l := h.findByIP(reqIP); l == nil || l.State == StateFree || bytes.Equal(l.ClientID, lease.ClientID) {
-			if h.session.FindIP(reqIP) == nil {
-				lease.IPOffer = reqIP
-				if Logger.IsInfo() {
-					Logger.Msg("offer").IP("ip", lease.IPOffer).Write()
-				}
-				return nil
-			}
+	if reqIP.Is4() && h.ipAvailable(lease, reqIP) {
+		lease.IPOffer = reqIP
+		if Logger.IsInfo() {
+			Logger.Msg("offer").IP("ip", lease.IPOffer).Write()
 		}
+		return nil
 	}
 
 	// search in remaining space to deliver sequential addresses
 	var ip netip.Addr
-	for lease.subnet.nextIP.Less(lease.subnet.broadcast) {
+	for lease.subnet.nextIP.IsValid() && lease.subnet.nextIP.Less(lease.subnet.broadcast) { // nextIP is unset until the first allocation
 		// for tmpIP.IsValid() {
-		if l := h.findByIP(lease.subnet.nextIP); l == nil || l.State == StateFree {
-			if h.session.FindIP(lease.subnet.nextIP) == nil {
-				ip = lease.subnet.nextIP
-				lease.subnet.nextIP = lease.subnet.nextIP.Next()
-				break
-			}
+		if h.ipAvailable(lease, lease.subnet.nextIP) {
+			ip = lease.subnet.nextIP
+			lease.subnet.nextIP = lease.subnet.nextIP.Next()
+			break
 		}
 		lease.subnet.nextIP = lease.subnet.nextIP.Next()
 	}
@@ -156,12 +168,10 @@ func (h *Handler) allocIPOffer(lease *Lease, reqIP netip.Addr) error {
 	// search across full subnet in case other IPs were freed
 	lease.subnet.nextIP = lease.subnet.FirstIP
 	for lease.subnet.nextIP.Less(lease.subnet.broadcast) {
-		if l := h.findByIP(lease.subnet.nextIP); l == nil || l.State == StateFree {
-			if h.session.FindIP(lease.subnet.nextIP) == nil {
-				ip = lease.subnet.nextIP
-				lease.subnet.nextIP = lease.subnet.nextIP.Next()
-				break
-			}
+		if h.ipAvailable(lease, lease.subnet.nextIP) {
+			ip = lease.subnet.nextIP
+			lease.subnet.nextIP = lease.subnet.nextIP.Next()
+			break
 		}
 		lease.subnet.nextIP = lease.subnet.nextIP.Next()
 	}
